@@ -299,4 +299,151 @@ theorem tableLoad_shape (s s' : Loaded) (rows : List Line) (cols : List PCol) (u
   unfold tableLoad at h
   obtain ⟨tbl, _, h1⟩ := bind_ok _ _ _ h
   exact assignCols_shape s.box cols _ s s' (by rw [columnCells_length]) hnd h1
+
+/-! ### … and the printed values (columns without conversion, or with a unit factor) -/
+
+theorem fitRows_eq (n : Nat) (vals : List (List Rat)) (h : vals.length = n) : fitRows n vals = .ok vals := by
+  unfold fitRows
+  rw [if_pos h]
+  rfl
+
+theorem mapM_pure_map {α β : Type} (g : α → β) (l : List α) :
+    l.mapM (fun a => (pure (g a) : Res β)) = .ok (l.map g) := by
+  induction l with
+  | nil => rfl
+  | cons a as ih => rw [List.mapM_cons, ih]; rfl
+
+theorem assignProp_vals (s s' : Loaded) (p : LProp) (h : assignProp s p = .ok s') (hl : p.vals.length = s.natoms) :
+    ∃ q, s'.prop? p.name = some q ∧ q.shape = p.shape ∧ q.vals = p.vals := by
+  unfold assignProp at h
+  rw [fitRows_eq _ _ hl] at h
+  obtain ⟨vals, hf, h⟩ := bind_ok _ _ _ h
+  have hv : vals = p.vals := (Except.ok.inj hf).symm
+  subst hv
+  split at h
+  · simp [throw, throwThe, MonadExceptOf.throw] at h
+  · split at h
+    · simp [throw, throwThe, MonadExceptOf.throw] at h
+    · have hs : s' = _ := (Except.ok.inj h).symm
+      subst hs
+      refine ⟨{ p with vals := p.vals, isInt := if p.name = "pos" then false else p.isInt,
+                       isBool := if p.name = "pos" then false else p.isBool }, ?_, rfl, rfl⟩
+      exact find_setProp_self { p with vals := p.vals, isInt := if p.name = "pos" then false else p.isInt,
+                                       isBool := if p.name = "pos" then false else p.isBool } s.props
+
+/-- the values of the array built for one `prop_info` entry: the cells as they stand (`unit = None`), or each
+    times the unit factor. -/
+theorem propOfColumn_vals (box : Box Rat) (c : PCol) (cells : List (List Val)) (p : LProp)
+    (h : propOfColumn box c cells = .ok p) :
+    (c.unit = .none → p.vals = cells.map (·.map Val.toRat)) ∧
+    (∀ f, c.unit = .factor f → p.vals = cells.map (·.map fun v => v.toRat * f)) := by
+  unfold propOfColumn at h
+  split at h
+  · simp [throw, throwThe, MonadExceptOf.throw] at h
+  · split at h
+    · simp [throw, throwThe, MonadExceptOf.throw] at h
+    · split at h
+      · simp [throw, throwThe, MonadExceptOf.throw] at h
+      · obtain ⟨vals, hm, h⟩ := bind_ok _ _ _ h
+        have hp : p = _ := (Except.ok.inj h).symm
+        subst hp
+        constructor
+        · intro hu
+          rw [hu] at hm
+          have : (fun cs : List Val => convertCells box .none cs) = fun cs => (pure (cs.map Val.toRat) : Res _) := rfl
+          rw [show convertCells box .none = fun cs => (pure (cs.map Val.toRat) : Res _) from rfl, mapM_pure_map] at hm
+          exact (Except.ok.inj hm).symm
+        · intro f hu
+          rw [hu] at hm
+          rw [show convertCells box (.factor f) = fun cs => (pure (cs.map fun v => v.toRat * f) : Res _) from rfl,
+            mapM_pure_map] at hm
+          exact (Except.ok.inj hm).symm
+
+theorem assignCols_natoms (box : Box Rat) : ∀ (cols : List PCol) (cells : List (List (List Val))) (s s' : Loaded),
+    assignCols box cols cells s = .ok s' → s'.natoms = s.natoms
+  | [], _, s, s', h => by simp [assignCols, pure, Except.pure] at h; rw [h]
+  | c :: cs, [], s, s', h => by simp [assignCols, pure, Except.pure] at h; rw [h]
+  | c :: cs, cells :: rest, s, s', h => by
+    rw [assignCols] at h
+    by_cases ha : c.prop = "a_id"
+    · rw [if_pos ha] at h
+      exact assignCols_natoms box cs rest s s' h
+    · rw [if_neg ha] at h
+      obtain ⟨p, hp, h1⟩ := bind_ok _ _ _ h
+      obtain ⟨s1, hs1, h2⟩ := bind_ok _ _ _ h1
+      rw [assignCols_natoms box cs rest s1 s' h2, (assignProp_spec s s1 p hs1).2.2]
+
+/-- every listed property holds, per atom, the cells of its column group (times the unit factor, if it has one). -/
+theorem assignCols_vals (box : Box Rat) : ∀ (cols : List PCol) (cellsL : List (List (List Val))) (s s' : Loaded),
+    (cols.map (·.prop)).Nodup → assignCols box cols cellsL s = .ok s' →
+    ∀ (j : Nat) (hj : j < cols.length) (hj' : j < cellsL.length), cols[j].prop ≠ "a_id" → cellsL[j].length = s.natoms →
+      ∃ q, s'.prop? cols[j].prop = some q ∧ q.shape = cols[j].shape ∧
+        (cols[j].unit = .none → q.vals = cellsL[j].map (·.map Val.toRat)) ∧
+        (∀ f, cols[j].unit = .factor f → q.vals = cellsL[j].map (·.map fun v => v.toRat * f))
+  | [], _, s, s', _, _, j, hj, _, _, _ => by simp at hj
+  | c0 :: cs, [], s, s', _, _, j, _, hj', _, _ => by simp at hj'
+  | c0 :: cs, cells :: rest, s, s', hnd, h, j, hj, hj', hid, hlen => by
+    rw [assignCols] at h
+    have hnd2 : c0.prop ∉ cs.map (·.prop) ∧ (cs.map (·.prop)).Nodup := List.nodup_cons.mp hnd
+    have hnot : ∀ c' ∈ cs, c'.prop ≠ c0.prop := by
+      intro c' hc' e
+      exact hnd2.1 (by rw [← e]; exact List.mem_map_of_mem hc')
+    by_cases ha : c0.prop = "a_id"
+    · rw [if_pos ha] at h
+      cases j with
+      | zero => exact absurd ha hid
+      | succ j =>
+        exact assignCols_vals box cs rest s s' hnd2.2 h j (by simpa using hj) (by simpa using hj') hid hlen
+    · rw [if_neg ha] at h
+      obtain ⟨p, hp, h1⟩ := bind_ok _ _ _ h
+      obtain ⟨s1, hs1, h2⟩ := bind_ok _ _ _ h1
+      cases j with
+      | zero =>
+        obtain ⟨hpn, hps, _, hpl⟩ := propOfColumn_shape box c0 cells p hp
+        obtain ⟨hv1, hv2⟩ := propOfColumn_vals box c0 cells p hp
+        have hlen0 : cells.length = s.natoms := hlen
+        obtain ⟨q, hq1, hq2, hq3⟩ := assignProp_vals s s1 p hs1 (by rw [hpl, hlen0])
+        refine ⟨q, ?_, by rw [hq2, hps]; rfl, ?_, ?_⟩
+        · show s'.prop? c0.prop = some q
+          rw [assignCols_other box cs rest s1 s' h2 c0.prop hnot, ← hpn]
+          exact hq1
+        · intro hu; rw [hq3]; exact hv1 hu
+        · intro f hu; rw [hq3]; exact hv2 f hu
+      | succ j =>
+        have hn1 : s1.natoms = s.natoms := (assignProp_spec s s1 p hs1).2.2
+        exact assignCols_vals box cs rest s1 s' hnd2.2 h2 j (by simpa using hj) (by simpa using hj') hid
+          (by rw [hn1]; exact hlen)
+
+theorem sortRows_length (cols : List PCol) (tbl : List (List Val)) : (sortRows cols tbl).length = tbl.length := by
+  unfold sortRows
+  cases idIndex cols with
+  | none => rfl
+  | some i => exact (sortBy_perm _ tbl).length_eq
+
+/-- the cells of column group `j` in one row of the numeric table. -/
+def groupCells (cols : List PCol) (j : Nat) (r : List Val) : List Val := ((splitCols cols r)[j]?).getD []
+
+/-- the table reader in closed form, property by property: with one table row per atom, every listed property
+    holds — in id order — the cells of its own column group as they stand, or times its unit factor, under the shape
+    of its `prop_info` entry. -/
+theorem tableLoad_vals (s s' : Loaded) (rows : List Line) (cols : List PCol) (usecols : Bool)
+    (hnd : (cols.map (·.prop)).Nodup) (h : tableLoad s rows cols usecols = .ok s') :
+    ∃ tbl, readTable rows (colsWidth cols) usecols = .ok tbl ∧
+      (tbl.length = s.natoms → ∀ (j : Nat) (hj : j < cols.length), cols[j].prop ≠ "a_id" →
+        ∃ q, s'.prop? cols[j].prop = some q ∧ q.shape = cols[j].shape ∧
+          (cols[j].unit = .none → q.vals = (sortRows cols tbl).map fun r => (groupCells cols j r).map Val.toRat) ∧
+          (∀ f, cols[j].unit = .factor f →
+            q.vals = (sortRows cols tbl).map fun r => (groupCells cols j r).map fun v => v.toRat * f)) := by
+  unfold tableLoad at h
+  obtain ⟨tbl, ht, h1⟩ := bind_ok _ _ _ h
+  refine ⟨tbl, ht, ?_⟩
+  intro hn j hj hid
+  have hjc : j < (columnCells cols (sortRows cols tbl)).length := by rw [columnCells_length]; exact hj
+  have hcell : (columnCells cols (sortRows cols tbl))[j] = (sortRows cols tbl).map (groupCells cols j) := by
+    simp [columnCells, groupCells]
+  obtain ⟨q, hq1, hq2, hq3, hq4⟩ := assignCols_vals s.box cols _ s s' hnd h1 j hj hjc hid
+    (by rw [hcell, List.length_map, sortRows_length, hn])
+  refine ⟨q, hq1, hq2, ?_, ?_⟩
+  · intro hu; rw [hq3 hu, hcell, List.map_map]; rfl
+  · intro f hu; rw [hq4 f hu, hcell, List.map_map]; rfl
 end Atomman.C08
